@@ -73,6 +73,11 @@ package f3
 //@   pure
 //@   ensures result == (bi == o)
 
+//@ func github.com/filecoin-project/go-state-types/big.(Int).Neg
+//@   trusted big.Int arithmetic is exact integer arithmetic
+//@   pure
+//@   ensures result == 0 - bi
+
 //@ func math/big.(*Int).Sign
 //@   trusted big.Int sign
 //@   pure
@@ -83,6 +88,11 @@ package f3
 //@   trusted big.Int.Int64 returns the value when it fits
 //@   pure
 //@   ensures -9223372036854775808 <= x && x <= 9223372036854775807 ==> result == x
+
+//@ func cmp.Compare[gpbft.ActorID]
+//@   trusted cmp.Compare is the three-way comparison of its arguments
+//@   pure
+//@   ensures (result < 0) == (x < y) && (result > 0) == (x > y) && -1 <= result && result <= 1
 
 // ---- byte strings compared as opaque values ----
 //@ spec func bytesEq(a []byte, b []byte) bool
